@@ -13,7 +13,9 @@ RULE = (
     "expressions, both byte orders, pointer sizes 4/8: encode vs reference "
     "bytes, decode(encode) equality and consumed length, directive form "
     "re-encoded by the reference; (b) out-of-range operands must raise "
-    "ValueError; (c) all 256 first bytes x {op,cfa} x order x ptr with "
+    "ValueError - also as a history: a valid object is encoded, the operand "
+    "(possibly of an operation nested in an instruction's expression) is "
+    "updated in place and the object encoded again; (c) all 256 first bytes x {op,cfa} x order x ptr with "
     "deterministic tails (exhaustive sub-space) compared with the reference "
     "decoder incl. truncation; (d) parse_cfi_instructions on concatenations; "
     "(e) make_const_op value and minimal length.  A case is non-trivial when "
